@@ -55,7 +55,11 @@ KIND_POOLS = {
                                          ("bigint", [2 ** 53, 2 ** 53 + 1, 2 ** 53 + 2, 2 ** 53 - 1]),
                                          ("bigint", [2 ** 63 - 1, 2 ** 63 - 2, -2 ** 63, -2 ** 63 + 1, 0]),
                                          ("uint64", [2 ** 64 - 1, 2 ** 64 - 2, 2 ** 63, 2 ** 53 + 1, 1])],
-    "j": [("str", p) for p in JPOOLS] + [("str", ["a b", "\u00e9", "x"]), ("float", [1.0, 10.0, 2.5]),
+    "j": [("str", p) for p in JPOOLS] + [("str", ["a b", "\u00e9", "x"]),
+                                         # NAMES ARE DATA: values holding glob / regex / fsspec metacharacters; a pattern reading of one
+                                         # of them matches ANOTHER value of the pool ('run[1]' ~ 'run1', 'a*' ~ 'ab', 'a?b' ~ 'axb')
+                                         ("str", ["run[1]", "run1", "run[12]", "run2"]), ("str", ["a*", "ab", "a?b", "axb", "*"]),
+                                         ("str", ["{x,y}", "x", "y", "a{1}"]), ("str", ["a+b", "a.b", "a^b$", "(a|b)", "a%20b", "a#b", "a&b"]), ("float", [1.0, 10.0, 2.5]),
                                          ("ts", ["2021-03-04T00:00:00", "2021-03-04T05:06:07"])],
 }
 DEFAULT_PTYPES = {"k": "int", "j": "str"}
@@ -123,10 +127,12 @@ def gen_history(rng, hid, maxlen=6):
     pcols = [[], ["k"], ["k", "j"]][npc]
     if npc == 2 and rng.random() < 0.3:
         pcols = ["j", "k"]
+    if npc == 1 and rng.random() < 0.35:
+        pcols = ["j"]
     nid = 0
     n = rng.choice([1, 2, 4, 6, 8])
     kkind, kpool = rng.choice(KIND_POOLS["k"][:3] * 2 + KIND_POOLS["k"][3:])
-    jkind, jpool = rng.choice(KIND_POOLS["j"][:3] * 2 + KIND_POOLS["j"][3:])
+    jkind, jpool = rng.choice(KIND_POOLS["j"][:3] * 2 + KIND_POOLS["j"][3:] + KIND_POOLS["j"][4:8])
     null_cols = ()
     if pcols and rng.random() < 0.35:
         null_cols = tuple(c for c in pcols if {"k": kkind, "j": jkind}[c] in NULLABLE_KEY_KINDS)
@@ -198,6 +204,23 @@ def null_key_witnesses():
             {"op": "append", "frame": fr([kv(None), kv(b)], 7), "offsets": [0]},
             {"op": "overwrite", "frame": fr([kv(b), kv(None), kv(None)], 9), "offsets": [0]},
             {"op": "writergs", "frame": fr([kv(None), kv(a), kv(b), kv(None)], 12), "offsets": [0, 2], "sort_key": "part", "sort_pnames": True}]})
+    return out
+
+
+def name_witnesses():
+    """partition values that are patterns for a glob / regular expression: removing ONE of two row groups of 'j=run[1]' (pattern: run1),
+    of 'j=a*', of 'j={x,y}' must leave the other one in place; then overwrite and renumber"""
+    def fr(js, start):
+        return [{"x": start + i, "y": 0.5, "k": 1, "j": j} for i, j in enumerate(js)]
+    out = []
+    for n, (v, other) in enumerate([("run[1]", "run2"), ("a*", "b"), ("{x,y}", "z"), ("a?b", "c")]):
+        out.append({"id": 900051 + n, "pcols": ["j"], "ptypes": {"k": "int", "j": "str"}, "ops": [
+            {"op": "write", "frame": fr([v, other, v, v], 0), "offsets": [0, 2, 3]},
+            {"op": "remove", "sel_spec": [0], "all": False, "sort_pnames": False},
+            {"op": "append", "frame": fr([v, other], 4), "offsets": [0]},
+            {"op": "remove", "sel_spec": [1], "all": False, "sort_pnames": True},
+            {"op": "overwrite", "frame": fr([other], 6), "offsets": [0]},
+            {"op": "writergs", "frame": fr([v], 7), "offsets": [0], "sort_key": "part", "sort_pnames": True}]})
     return out
 
 
@@ -592,7 +615,7 @@ def run(ctx):
                 "partition values are drawn per history from pools of which two hold prefix-related texts (k in 1/10/11/2/21, j in a/ab/abc/b) and every new frame "
                 "from the whole pool, one value only, or a random subset; plus the DESIGN witness history, 3 prefix-value and 5 value-kind witness histories and 2 "
                 "histories that empty the dataset and append again (finding fixed by 05c32a7)")
-    hs = [design_witness(), emptied_history(["k"], 900002), emptied_history([], 900003)] + prefix_witnesses() + kind_witnesses() + null_key_witnesses() + [user_open_witness()] + [gen_history(rng, i) for i in range(nh)]
+    hs = [design_witness(), emptied_history(["k"], 900002), emptied_history([], 900003)] + prefix_witnesses() + kind_witnesses() + null_key_witnesses() + name_witnesses() + [user_open_witness()] + [gen_history(rng, i) for i in range(nh)]
     cdir = os.path.join(C.VERIF, "corpus", "C09")
     if os.path.isdir(cdir):
         for i, f in enumerate(sorted(os.listdir(cdir))):
